@@ -19,6 +19,7 @@ Not decided: encode->decode identity (values); decoders of dependencies.
 """
 import collections
 import re
+import guards
 from paths import Inter
 from common import short, slice_locals
 import panics
@@ -313,6 +314,12 @@ def r19_2(ctx, fx, seen):
                                 work.append(rv[kk])
                 ok = ent["type"] in tys
                 why += " (types on the size slice: %s)" % sorted(t for t in tys if len(t) < 8)
+            if ent.get("min_with"):
+                # the size is `min(.., bound)` where `bound` carries a named constant step and nothing decoded from the wire alone
+                pr = fn.producer(size)
+                ok = pr is not None and bool(re.search(r"cmp::min$|Ord>?::min$", pr.name)) and \
+                    any(any(re.search(ent["min_with"], x) for x in guards.rootstrs(fn, a) if x.startswith("const:")) for a in pr.args)
+                why += " (size produced by %s)" % (pr.name if pr is not None else None)
             missing = []
             if ent.get("need"):
                 cut = set()
@@ -486,6 +493,41 @@ def r19_5(ctx, fx):
                detail="decoder side read for reference; None aggregates: %d" % len(nones))
 
 
+def r19_6(ctx, fx):
+    """(feature webrtc, `all` configuration) per-channel reassembly: WebRtcConnection::on_inbound_data appends every SCTP message to
+    `recv_buffers[channel]` and then extracts frames.  extract_framed_message bounds a *frame* (MAX_FRAME_SIZE) but leaves the bytes
+    in place when the length prefix is invalid, which is a permanent condition: unless the buffer is dropped on that error every
+    later message of the channel is appended behind the bad prefix and the buffer grows by whatever the remote sends.  From the Err
+    edge of extract_framed_message every path to a return of the handler passes a remove / clear of `recv_buffers`."""
+    keys = [k for k in fx.find(r"^transport::webrtc::connection::WebRtcConnection::\w+(::\{closure#\d+\})?$") if fx.fn(k).calls(r"webrtc::util::extract_framed_message$")]
+    ctx.anchor("R19.6", "webrtc connection: bodies calling extract_framed_message (%s)" % fx.cfg, len(keys), 1, cfg=fx.cfg)
+    for key in keys:
+        fn = fx.fn(key)
+        ctx.bodies.add((fx.cfg, key))
+        grows = [c for c in fn.calls(r"BytesMut::(extend_from_slice|put_slice|put|extend)$|BufMut>?::put\w*$") if any(re.search(r"\.recv_buffers", x) or "recv_buffers" in x for x in guards.rootstrs(fn, c.args[0]))]
+        drops = [c.node for c in fn.calls(r"HashMap(<.*>)?::(remove|clear)$|BytesMut::(clear|truncate)$|hash_map::OccupiedEntry(<.*>)?::remove\w*$") if "recv_buffers" in fn.recv(c) or any("recv_buffers" in x for x in guards.rootstrs(fn, c.args[0]))]
+        for i, c in enumerate(fn.calls(r"webrtc::util::extract_framed_message$")):
+            err = set()
+            srcs = fn.copies_of(c.dest[0]) | {c.dest[0]}
+            for b in fn.calls(r"ops::Try>?::branch$"):
+                a = b.args[0].get("m") or b.args[0].get("c")
+                if a and a[0] in srcs and b.dest:
+                    srcs |= fn.copies_of(b.dest[0]) | {b.dest[0]}
+            for sw in fn.discr_switches():
+                if sw[1] and sw[1][0] in srcs and len(sw[1]) == 1:
+                    for v in ("Err", "Break"):
+                        for lab in fn.variant_edges(sw, v):
+                            others = [l for w in list(sw[3]) + list(sw[5]) if w != v for l in fn.variant_edges(sw, w)]
+                            if lab not in others:
+                                err.add((sw[0], lab))
+            starts = [n for sw_, lab in err for n, l in fn.succs(sw_) if l == lab]
+            r = fn.reach(starts, avoid=drops) if starts else set()
+            leaks = [n for n in fn.return_nodes() if n in r]
+            ctx.ob("R19.6", "%s/framing-error#%d-drops-the-reassembly-buffer" % (short(key), i), bool(err) and not leaks, site=fn.site(c.node), cfg=fx.cfg,
+                   detail="growth sites of recv_buffers here: %d; Err edges of the extraction: %d; drops of the buffer: %d; returns reached from the Err edge without a drop: %d"
+                   % (len(grows), len(err), len(drops), len(leaks)))
+
+
 def run(ctx):
     for cfg in ctx.configs():
         fx = ctx.facts(cfg)
@@ -497,6 +539,8 @@ def run(ctx):
         r19_2b(ctx, fx, seen)
         r19_3(ctx, fx, seen)
         r19_4(ctx, fx)
+        if cfg == "all":
+            r19_6(ctx, fx)
         if cfg == "default":
             r19_5(ctx, fx)
             # the `expect` in From<PeerId> for multiaddr::PeerId is discharged by "every PeerId value is one the reference accepts":
@@ -504,6 +548,10 @@ def run(ctx):
             import C18
             C18.r18_1(ctx, fx)
             C18.r18_2(ctx, fx)
+            # the substream frame decoder's allocation discipline (size compared with the maximum, or a constant step without one) is
+            # stated in C04 R04.1 and is part of this property's argument for the `zeroed` site of Stream::poll_next
+            import C04
+            C04.r04_1(ctx, fx)
     ctx.assume("prost / unsigned-varint / multihash / multiaddr / cid / snow / bytes decoders return errors instead of panicking")
     ctx.assume("in-memory sizes are < 2^63, so usize additions of lengths and offsets cannot overflow")
     ctx.assume("quick: feature configuration `default`; thorough adds `--all-features` (webrtc substream / noise reply decoders)")
